@@ -6,6 +6,7 @@ package syntax
 
 import (
 	"fmt"
+	"sort"
 	"strings"
 )
 
@@ -442,10 +443,16 @@ func MergeMapCallSources(a, b MapCallSource) (MapCallSource, error) {
 				return nil, fmt.Errorf("map length mismatch %d vs %d",
 					len(ka), len(kb))
 			}
+			var missing []string
 			for k := range ka {
 				if _, ok := kb[k]; !ok {
-					return nil, fmt.Errorf("map key missing %q", k)
+					missing = append(missing, k)
 				}
+			}
+			if len(missing) > 0 {
+				// Report the same key on every run.
+				sort.Strings(missing)
+				return nil, fmt.Errorf("map key missing %q", missing[0])
 			}
 		case ModeNullMapCall:
 			switch b.CallMode() {
